@@ -31,8 +31,15 @@ def gen(tier, seed):
                 "P": pts_json(rand_points(rnd, n, dim)),
                 "W": fsl(rand_weights(rnd, n)) if rational else None,
                 "nodes": fsl(nodes),
-                "seqnodes": fsl(rnd.sample(nodes[:-2], len(nodes) - 2)),     # in range, shuffled
+                "seqnodes": fsl(rnd.sample(nodes[:-4], len(nodes) - 4)),     # in range, shuffled
             })
+    # single-span curves of high degree (closed-form shortcuts, binomial coefficients)
+    for p in ((7, 8) if tier == "quick" else (7, 8, 9, 10)):
+        U = [F(-1, 2)] * (p + 1) + [F(3, 2)] * (p + 1)
+        nodes = [F(-1, 2), F(0), F(1, 2), F(5, 4), F(3, 2)]
+        cases.append({"U": fsl(U), "p": p, "kind": "bezier-high", "mults": [], "scalar": True,
+                      "P": pts_json(rand_points(rnd, p + 1, 1)), "W": None, "nodes": fsl(nodes + [F(2)]),
+                      "seqnodes": fsl(nodes[::-1])})
     return cases
 
 
